@@ -164,8 +164,8 @@ end Litex.Axi.Lite
 
 /-! ### Write data: which slave a data handshake must reach
 
-  Scope: single-beat data (AXI-Lite; AXI4 transfers with `len = 0`): every data handshake is the complete data of
-  one address. -/
+  Data bursts: a burst is the sequence of data handshakes up to and including the one whose payload carries `last`
+  (`c.wlast`; AXI-Lite: every transfer).  Bursts belong to addresses in order. -/
 namespace Litex.Axi.Lite
 open Litex
 
@@ -174,27 +174,36 @@ def slaveOf (c : Cfg) (a : Nat) : Option Nat := (List.range c.m).find? fun j => 
 
 /-- Data-routing scoreboard. -/
 structure DGhost where
-  /-- per master: the slaves of its accepted addresses that still wait for their data, oldest first -/
+  /-- per master: the slaves of its accepted addresses whose data burst is not complete yet, oldest first -/
   wq    : Nat → List Nat
-  /-- per master: the slave that already took the data of the address the master is still presenting -/
-  ahead : Nat → Option Nat
-  /-- per slave: data items received minus responses given -/
+  /-- per master: `(slave, complete)` — the slave that already took beats of the burst of the address the master is
+      still presenting, and whether that burst is complete -/
+  ahead : Nat → Option (Nat × Bool)
+  /-- per slave: complete data bursts received minus responses given -/
   sd    : Nat → Nat
 
 def DGhost.empty : DGhost := { wq := fun _ => [], ahead := fun _ => none, sd := fun _ => 0 }
 
+/-- A master's waiting list after this cycle's address handshake `rq` (to slave `sl`): the address joins the list
+    unless its whole data burst has already gone ahead. -/
+def wqAfterAddr (wq : List Nat) (a : Option (Nat × Bool)) (rq : Bool) (sl : Option Nat) : List Nat :=
+  if rq then
+    (match a with
+     | some (_, true) => wq
+     | _ => wq ++ sl.toList)
+  else wq
+
 /-- Scoreboard update from the events of one cycle (address handshake first, then the data handshake). -/
 def dgNext (c : Cfg) (rd : Bool) (dg : DGhost) (x : DirIn) (o : DirOut) : DGhost :=
   let wq1 : Nat → List Nat := fun i =>
-    if mReq x o i then
-      (match dg.ahead i with
-       | some _ => dg.wq i
-       | none => dg.wq i ++ (slaveOf c (x.ms i).aAddr).toList)
-    else dg.wq i
-  let ah1 : Nat → Option Nat := fun i => if mReq x o i then none else dg.ahead i
-  { wq := fun i => if mDat x o i then (wq1 i).tail else wq1 i,
-    ahead := fun i => if mDat x o i && (wq1 i).isEmpty then slaveOf c (x.ms i).aAddr else ah1 i,
-    sd := fun j => dg.sd j + (if sDat x o j then 1 else 0) - (if sDone (c.gated rd) x o j then 1 else 0) }
+    wqAfterAddr (dg.wq i) (dg.ahead i) (mReq x o i) (slaveOf c (x.ms i).aAddr)
+  let ah1 : Nat → Option (Nat × Bool) := fun i => if mReq x o i then none else dg.ahead i
+  { wq := fun i => if mDat x o i && c.wlast (x.ms i).dPay then (wq1 i).tail else wq1 i,
+    ahead := fun i => if mDat x o i && (wq1 i).isEmpty
+                      then (slaveOf c (x.ms i).aAddr).map fun k => (k, c.wlast (x.ms i).dPay)
+                      else ah1 i,
+    sd := fun j => dg.sd j + (if sDat x o j && c.wlast (o.toS j).dPay then 1 else 0)
+                     - (if sDone (c.gated rd) x o j then 1 else 0) }
 
 /-- The slave a data handshake of master `i` must reach in this cycle: the slave of its oldest accepted address that
     still waits for data, or — no such address — the slave of the address it is presenting. -/
@@ -203,13 +212,14 @@ def DTarget (c : Cfg) (dg : DGhost) (x : DirIn) (i j : Nat) : Prop :=
 
 /-- Additional assumptions on the environment for the data part. -/
 structure DEnvOK (c : Cfg) (dg : DGhost) (x : DirIn) : Prop where
-  /-- NoDataBeforeAddr: data is presented only for an accepted address that still waits for it, or for the address
-      being presented (whose data has not gone ahead already) -/
+  /-- NoDataBeforeAddr: data is presented only for an accepted address whose burst is not complete, or for the address
+      being presented (whose burst has not been completed ahead already) -/
   dataAfterAddr : ∀ i, i < c.n → (x.ms i).dValid = true →
-                    dg.wq i ≠ [] ∨ ((x.ms i).aValid = true ∧ dg.ahead i = none)
+                    dg.wq i ≠ [] ∨ ((x.ms i).aValid = true ∧ ∀ k, dg.ahead i ≠ some (k, true))
   /-- AXI: an address whose data went ahead stays presented, for the same slave, until it is accepted -/
-  addrHeld      : ∀ i k, i < c.n → dg.ahead i = some k → (x.ms i).aValid = true ∧ routes c k (x.ms i).aAddr = true
-  /-- AXI: a write response is given only after the data -/
+  addrHeld      : ∀ i k b, i < c.n → dg.ahead i = some (k, b) →
+                    (x.ms i).aValid = true ∧ routes c k (x.ms i).aAddr = true
+  /-- AXI: a write response is given only after the complete data burst -/
   respAfterData : ∀ j, j < c.m → (x.ss j).rValid = true → 0 < dg.sd j
 
 /-- Guarantee for the data channel in one cycle. -/
